@@ -241,7 +241,7 @@ where
     // identities on the big domain
     let idom = value_domain(f.bits(), if thorough && !DEBUG { 32 } else { 24 });
     idom.pieces.par_iter().for_each(|p| {
-        guard::enter(&json!({"fmt": name, "kind": "ident", "piece": p.describe()}).to_string());
+        let _guard_scope = guard::scoped(&json!({"fmt": name, "kind": "ident", "piece": p.describe()}).to_string());
         let mut n = 0u64;
         let mut bad = None;
         p.for_each(|u| {
@@ -264,7 +264,7 @@ where
     let offs = offsets(f.signed_companion());
     let gs = gains();
     sdom.pieces.par_iter().for_each(|p| {
-        guard::enter(&json!({"fmt": name, "kind": "laws", "piece": p.describe()}).to_string());
+        let _guard_scope = guard::scoped(&json!({"fmt": name, "kind": "laws", "piece": p.describe()}).to_string());
         let mut n = 0u64;
         let mut fps = Vec::new();
         let mut first: Option<(&str, i128, i128, f64, (String, String))> = None;
@@ -333,7 +333,7 @@ fn float_sweep(ctx: &Ctx, tot: &Tot) {
         vals.push(i as f64 / 2048.0 + 1e-9);
     }
     let mut n = 0u64;
-    guard::enter(&json!({"fmt":"f32/f64","kind":"float"}).to_string());
+    let _guard_scope = guard::scoped(&json!({"fmt":"f32/f64","kind":"float"}).to_string());
     for &x in &vals {
         for &g in &gs {
             n += 4;
@@ -387,7 +387,7 @@ fn main() {
         ctx.machinery_failure("part name does not match the build profile");
     }
     if let Some(v) = ctx.replay_case() {
-        guard::enter(&v.to_string());
+        let _guard_scope = guard::scoped(&v.to_string());
         ctx.finish_replay(catch(|| dispatch(&v)).unwrap_or_else(|p| Some(format!("panic: {p}"))));
     }
     guard::set_hang_secs(600);
